@@ -725,6 +725,10 @@ class Gen(object):
             dirs = [['i18n:msg', value]] + self.pydirs(0.12)
             if r.random() < 0.15:
                 dirs.insert(0, ['i18n:comment', self.words()])
+            if r.random() < 0.2:
+                # the message shares its element with other non-extracting i18n directives and
+                # with control-flow directives
+                dirs = self.combo_dirs(dirs, p_i18n=0.3, p_py=0.3)
             r.shuffle(dirs)
             tag = r.choice([t for t in TAGS if t not in self.config['ignore_tags']])
             return ['e', tag, self.attrs(lang_ok=False), dirs, kids]
@@ -765,7 +769,11 @@ class Gen(object):
         if r.random() < 0.8:
             value = '%s; %s' % (nv, pv) if params or r.random() < 0.5 else nv
             ctag = r.choice([t for t in ['div', 'p', 'ul'] if t not in self.config['ignore_tags']])
-            return ['e', ctag, self.attrs(lang_ok=False), [['i18n:choose', value]], kids]
+            cdirs = [['i18n:choose', value]]
+            if r.random() < 0.25:
+                # ... and so does the plural choice (ChooseDirective.__call__ as repaired applies them)
+                cdirs = self.combo_dirs(cdirs, p_i18n=0.3, p_py=0.5)
+            return ['e', ctag, self.attrs(lang_ok=False), cdirs, kids]
         return ['d', 'i18n:choose', [['numeral', nv], ['params', pv]], kids]
 
     def plain_elem(self, depth, excl):
